@@ -137,6 +137,8 @@ def body_copy_link(ctx):
     method = ctx.choice('method', ['copy', 'copyout', 'link'])
     is_dir = ctx.flag('source_is_directory')
     src = '/inst/stages/stage0/p/' + sym_path(ctx, 'fileref', 3, allow_abs=False)
+    # a path that ends in '.', '..' or '/' can only name a directory
+    ctx.assume(is_dir or not (src.endswith('/') or src.rsplit('/', 1)[1] in ('.', '..')))
     loc = types.SimpleNamespace(path=ctx.choice('workdir_spelling', [WD, WD + '/']))
     ref = types.SimpleNamespace(method=method, resolve=lambda g: src, stringRepresentation='ref')
 
